@@ -14,7 +14,7 @@ if ! go build ./... ; then echo "MUTANT DOES NOT BUILD"; git reset -q --hard HEA
 cd /verif
 for p in "$@"; do
   out=$(./check "$p" --tier "${TIER:-quick}" 2>&1); rc=$?
-  echo "== $p rc=$rc"; echo "$out" | grep -E "^(VIOLATION|KNOWN-FINDING|OK|ERROR)" | cut -c1-260 | head -4
+  echo "== $p rc=$rc"; echo "$out" | grep -E "^(VIOLATION|KNOWN-FINDING|OK|ERROR)" | cut -c1-260 | head -${LINES_MAX:-4}
 done
 cd /repo && git reset -q --hard HEAD && git clean -fdq >/dev/null 2>&1
 # the evidence written while the change was applied is not evidence about /repo: restore the committed files
